@@ -146,6 +146,20 @@ theorem C12_frame_clone_copies_script (f : Frame) :
     (∀ c, (Frame.clone f).acts c = f.acts c) ∧ (Frame.clone f).preacts = f.preacts :=
   ⟨rfl, rfl, rfl, rfl, rfl, rfl, rfl, fun _ => rfl, rfl⟩
 
+/-- **Cloning preserves the kind of every act.**  In the model the kind of an act is the constructor of its item —
+an entry condition (`Act` for a plain need, `Nact` for a negated one: the flag `neg`), a transition with its needs
+(again plain or negated), a store / recorder / done / rear / raze action with its context — and `Frame.clone` hands
+every item over unchanged: the entry conditions with their negation flags, the acts of each context, the precur list. -/
+theorem C12_clone_preserves_act_kinds (f : Frame) :
+    (Frame.clone f).items = f.items ∧ (Frame.clone f).beacts = f.beacts ∧
+    (Frame.clone f).beacts.map (·.neg) = f.beacts.map (·.neg) ∧
+    (∀ c, (Frame.clone f).acts c = f.acts c) ∧ (Frame.clone f).preacts = f.preacts :=
+  ⟨rfl, rfl, rfl, fun _ => rfl, rfl⟩
+
+example : (Frame.clone { name := "b", inode := "", over := none, next := none, links := [],
+                         items := [.cond [⟨true, .state "framer.me.blocked" .eq 1⟩, ⟨false, .allDone⟩]] }).beacts.map (·.neg)
+    = [true, false] := by decide
+
 /-- a frame nobody resolved yet (what every frame of a moot framer is) is cloned to an equal frame -/
 theorem C12_frame_clone_of_unresolved (f : Frame) (h1 : f.overRes = false) (h2 : f.outline = []) (h3 : f.auxes = []) :
     Frame.clone f = f := by
@@ -474,7 +488,7 @@ theorem C12_leaf_refines_partial (lo : Ops) (ι : String → String) (house name
 theorem C12_leaf_refines_checkStart_partial (lo : Ops) (ι : String → String) (house name : String) (P : List Frame)
     (first : String) (u : Nat) (base : List String) (s0 : St) (hP : Leafy P) (claimed : List Nat) (s : St) (l : LSt)
     (h : Sim ι house name P first u base s0 s l) :
-    checkStart lo u claimed s = (lcheckStart P first).map (fun b => (b, claimed)) :=
+    checkStart lo u claimed s = (lcheckStart P first l).map (fun b => (b, claimed)) :=
   sim_checkStart lo ι house name P first u base s0 hP claimed s l h
 
 /-- **A clone runs like its original.**  Two framer objects — a clone and the original run as an ordinary auxiliary,
@@ -574,7 +588,7 @@ def exP : List Frame :=
      items := [.act .enter (.put 0 "cnt"), .act .recur (.inc "cnt" 1), .act .recur (.record "r"),
                .go "a1" [⟨false, .state "cnt" .ge 2⟩, ⟨false, .state "state.elapsed" .ge 1⟩]] },
    { name := "a1", inode := "", over := none, next := none, outline := ["a1"], links := [],
-     items := [.act .enter .done, .act .exit (.record "x")] }]
+     items := [.cond [⟨true, .state "cnt" .eq 5⟩], .act .enter .done, .act .exit (.record "x")] }]
 
 example : ∀ f ∈ exP, f.leafy = true := by decide
 
